@@ -10,5 +10,8 @@ def _pairs(rng, tier):
     return e2e.fam_same_names(rng, 4 if tier == "quick" else 40, judge=("C13",))
 
 
-run = _sim.make("C13", 13, 20, ("C13",), extra_fams=[_pairs])
+# the first three models have a utility written as a reduction over a stacked array (valid on scalars, not element-wise on
+# columns) and report it as an additional target: a target evaluated on whole columns instead of row by row shows
+FEATS = [f | {"asum_utility"} if k < 3 else f for k, f in enumerate(e2e.FEATURES)]
+run = _sim.make("C13", 13, 20, ("C13",), extra_fams=[_pairs], features=FEATS)
 matches_signature, replay_known, replay = _sim.matches_signature, _sim.replay_known, _sim.replay
